@@ -56,7 +56,14 @@ characters, luafmt/luamin options on .p8.png carts, a destination given as a bar
 expression metacharacters in directory names, folders that look like the PICO-8 carts folder, `f{...}` calls in build sources,
 the glyphs 16-31 and 127, a custom load path falling back to the default patterns, a main program ending in `return`, lines of
 the form `__<glyphs>__`, bytearray / memoryview arguments, the label image treated as a memory section, tabs inside header
-comments, #include of a cart without code.
+comments, #include of a cart without code, one Lexer / Lua object fed in several calls (process_lines, update_from_lines), call
+shapes (positional vs keyword arguments, changed defaults), several carts on one command line, the `_update60` compatibility
+line, pictures of other sizes as label source, a Gfx object assigned to game.gfx while the map keeps the old one, all-zero data
+past 0x4300, `version=None`, an `if (cond)` with nothing after it, a short `while (cond) stmt`, blanks or comments between
+`require` and `(`, doubled path separators and names not in normal form, backslash sequences inside require() strings, project
+folders inside the carts folder, the default (unused) sfx / music rows, source carts whose code calls require(), a missing
+include target whose name exists in the other cart format, included .lua files that are fragments, #include names with other
+extensions, Unicode normalisation (NFKC) and typographic replacements in the .p8 reader, `__slots__` on AST nodes, batch undo.
 Look for something else, for example: a mask, shift or bit position that is off by one; signed/unsigned or 7-bit/8-bit handling;
 an inclusive/exclusive range end; integer division or rounding; the order in which two sections / options / passes are applied;
 an interaction between two command-line options or two library features that are each fine alone; a module-level table or
